@@ -17,9 +17,9 @@ from .. import stubs
 
 PROP = "C05"
 META = {
-    "bounds": {"quick": "semantic maps 1-D 4, 2-D 2x2 and 3-D 1x2x2 with values 0..2 (signed int64 and uint8), backend in {default, cc3d, scipy}; glue run with arbitrary back-end labels up to 2^20; "
+    "bounds": {"quick": "semantic maps 1-D 4, 2-D 2x2 and 3-D 1x2x2 with values 0..2 (signed int64 and uint8) plus 1-D 2 with int64 values -1..300 (dtype boundary 256 inside), backend in {default, cc3d, scipy}; glue run with arbitrary back-end labels up to 2^20; "
                         "two-call sequences on one approximator object across dimensionalities",
-               "thorough": "1-D 6 and 2-D 2x3 (values -1..2, both arrays symbolic, uint8 and int64); 2-D 3x3 and 3-D 2x2x2 with binary uint8 label maps (every foreground pattern on both sides)"},
+               "thorough": "1-D 2 with int64 values -1..70000 (dtype boundaries 256 and 65536 inside); 1-D 6 and 2-D 2x3 (values -1..2, both arrays symbolic, uint8 and int64); 2-D 3x3 and 3-D 2x2x2 with binary uint8 label maps (every foreground pattern on both sides)"},
     "stubs": ["cc3d.connected_components / scipy.ndimage.label := any labelling into exactly the connected components under the connectivity / structure / binarisation arguments actually passed (labels 1..N all used)"],
     "assumptions": ["the compiled back ends meet their documented contract (checked on every witness against an independent flood fill on the real package)",
                     "arrays larger than the bound are outside the claim"],
@@ -43,6 +43,11 @@ def cases(tier):
                     # 8-9 voxels: binary label maps (every foreground pattern on both sides)
                     c.update(maxval=1)
                 out.append(c)
+    # wide semantic label values (up to 70000: both dtype boundaries 256 and 65536 lie inside): the unsigned dtype chosen from the label
+    # ranges of BOTH sides must hold every value of both maps - the back end has to see the caller's values, not wrapped ones
+    for shp in [(2,)]:
+        for be in (None, "cc3d"):
+            out.append({"name": "%s_%s_int64_wide" % ("x".join(map(str, shp)), be), "what": "cc", "shape": shp, "backend": be, "dtype": "int64", "maxval": 300 if tier == "quick" else 70000})
     out.append({"name": "glue_arbitrary_backend_labels", "what": "glue"})
     out.append({"name": "sequence_2d_then_3d", "what": "sequence", "shapes": [(2, 2), (1, 2, 2)]})
     out.append({"name": "sequence_3d_then_2d", "what": "sequence", "shapes": [(1, 2, 2), (2, 2)]})
